@@ -257,6 +257,18 @@ func createEntry(key any, keyID string) (*Entry, error) {
 			"unsupported key type; only rsa and ecdsa keys are supported")
 	}
 
+	// reject keys, which cannot be used for any purpose, right away. Otherwise, the usage of
+	// the resulting entry would fail (or even panic) much later
+	if algorithm == AlgRSA && size < rsa2048 {
+		return nil, errorchain.NewWithMessagef(heimdall.ErrConfiguration,
+			"unsupported RSA key size: %d; at least %d bits are required", size, rsa2048)
+	}
+
+	if algorithm == AlgECDSA && size != ecdsa256 && size != ecdsa384 && size != ecdsa512 {
+		return nil, errorchain.NewWithMessagef(heimdall.ErrConfiguration,
+			"unsupported ECDSA key size: %d; only P-256, P-384 and P-521 curves are supported", size)
+	}
+
 	return &Entry{
 		KeyID:      keyID,
 		Alg:        algorithm,
